@@ -178,13 +178,13 @@ class Program:
             raise AnchorMissing("function %s not found in %s" % (qualname, rel))
         return f
 
-    def func_inlined(self, rel, qualname, depth=2):
-        """The function with calls to sibling helpers expanded (see engine/inline.py); cached."""
-        key = (rel, qualname, depth)
+    def func_inlined(self, rel, qualname, depth=2, exclude=()):
+        """The function with calls to sibling helpers expanded (see engine/inline.py); cached.  `exclude`: callee names to keep as calls."""
+        key = (rel, qualname, depth, tuple(sorted(exclude)))
         cache = self.__dict__.setdefault("_inlined_cache", {})
         if key not in cache:
             from . import inline
-            cache[key] = inline.inlined(self, self.func(rel, qualname), depth)
+            cache[key] = inline.inlined(self, self.func(rel, qualname), depth, exclude=exclude)
         return cache[key]
 
     def cls(self, rel, qualname):
